@@ -692,6 +692,20 @@ pub fn record(args: &[String]) -> i32 {
         // replay of a stored metamorphic group
         for_each_case(path, |case| {
             let text = cps_to_string(&case["text"]);
+            // a single expression string (struct / tab / crash events): evaluate it again
+            if case.get("expr").is_some() && case.get("exprs").is_none() {
+                let tree = case.get("tree").cloned().unwrap_or(json!({"prolog": [], "nodes": []}));
+                let text = if case.get("text").is_some() { text } else { "<r/>".to_string() };
+                if let Ok(doc) = load_doc(&text, &tree) {
+                    let mut ev = case.clone();
+                    if ev["k"] == "crash" {
+                        ev["k"] = json!("struct");
+                    }
+                    ev["obs"] = eval_fresh(&doc, &cps_to_string(&case["expr"]), &json!([]));
+                    writeln!(wtr, "{}", ev).unwrap();
+                }
+                return;
+            }
             if let Ok(doc) = load_doc(&text, &case["tree"]) {
                 let exprs: Vec<String> = case["exprs"].as_array().unwrap().iter().map(cps_to_string).collect();
                 let obs: Vec<J> = exprs.iter().map(|e| eval_fresh(&doc, e, &json!([]))).collect();
